@@ -35,10 +35,15 @@ type memConn struct {
 	onWrite  func([]byte)
 	drained  chan struct{} // closed when the script is exhausted (first Read past the last segment)
 	dOnce    sync.Once
+	// a client that paces itself: before handing out segment number pauseAt (0-based) the
+	// Read waits for pause (or until the handler's side closes the connection)
+	pauseAt   int
+	pause     time.Duration
+	delivered int
 }
 
 func newMemConn(l, r net.Addr, segs [][]byte, end string) *memConn {
-	c := &memConn{L: l, R: r, end: end, closed: make(chan struct{}), drained: make(chan struct{})}
+	c := &memConn{L: l, R: r, end: end, closed: make(chan struct{}), drained: make(chan struct{}), pauseAt: -1}
 	for _, s := range segs {
 		c.segs = append(c.segs, append([]byte{}, s...))
 	}
@@ -54,6 +59,17 @@ func (c *memConn) Read(p []byte) (int, error) {
 		return 0, io.ErrClosedPipe
 	default:
 	}
+	if len(c.segs) > 0 && c.delivered == c.pauseAt && c.pause > 0 {
+		d := c.pause
+		c.pause = 0
+		c.mu.Unlock()
+		select {
+		case <-time.After(d):
+		case <-c.closed:
+			return 0, io.ErrClosedPipe
+		}
+		c.mu.Lock()
+	}
 	if len(c.segs) > 0 {
 		s := c.segs[0]
 		n := copy(p, s)
@@ -61,6 +77,7 @@ func (c *memConn) Read(p []byte) (int, error) {
 			c.segs[0] = s[n:]
 		} else {
 			c.segs = c.segs[1:]
+			c.delivered++
 		}
 		c.mu.Unlock()
 		if n == 0 {
